@@ -191,30 +191,34 @@ def run_connect(case, rng, mon):
 def grid(cls, rng):
     """[(params (hashable, canonical), factory)]"""
     out = []
+    fresh = lambda n: int(str(n))     # a new int object on every call (equal value, different identity above 256)
     if cls == "csr.Signature":
-        for aw in (1, 2, 8, 16, 32):
-            for dw in (1, 8, 16, 32, 37):
-                out.append(((aw, dw), lambda aw=aw, dw=dw: csr.Signature(addr_width=aw, data_width=dw)))
+        for aw in (1, 2, 8, 16, 32, 300):
+            for dw in (1, 8, 16, 32, 37, 257, 1024):
+                out.append(((aw, dw), lambda aw=aw, dw=dw: csr.Signature(addr_width=fresh(aw), data_width=fresh(dw))))
     elif cls == "csr.Element.Signature":
-        for w in (0, 1, 8, 9, 64):
+        for w in (0, 1, 8, 9, 64, 256, 257, 512, 1000):
             for acc in ("r", "w", "rw", csr.Element.Access.R, csr.Element.Access.RW):
                 a = csr.Element.Access(acc).value
-                out.append(((w, a), lambda w=w, acc=acc: csr.Element.Signature(w, acc)))
+                out.append(((w, a), lambda w=w, acc=acc: csr.Element.Signature(fresh(w), acc)))
     elif cls == "csr.FieldPort.Signature":
         shapes = [unsigned(0), unsigned(1), 1, unsigned(8), 8, signed(8), range(256), range(16), unsigned(4), E2, unsigned(2),
-                  signed(2)]
+                  signed(2), unsigned(300), signed(300), 300, range(-2, 2)]
         for sh in shapes:
             for acc in ("r", "w", "rw", "nc"):
                 c = Shape.cast(sh)
-                out.append((((c.width, c.signed), acc), lambda sh=sh, acc=acc: csr.FieldPort.Signature(sh, acc)))
+                out.append((((c.width, c.signed), acc),
+                            lambda sh=sh, acc=acc: csr.FieldPort.Signature(
+                                unsigned(fresh(sh.width)) if (isinstance(sh, Shape) and not sh.signed and sh.width > 256) else sh, acc)))
     elif cls == "wishbone.Signature":
-        geos = [(aw, dw, g) for aw in (0, 1, 30) for dw in (8, 16, 32, 64) for g in (None, 8, 16, 32, 64) if g is None or g <= dw]
+        geos = [(aw, dw, g) for aw in (0, 1, 2, 29, 30, 300) for dw in (8, 16, 32, 64) for g in (None, 8, 16, 32, 64)
+                if g is None or g <= dw]
         for aw, dw, g in geos:
             for k in range(64):
                 feats = frozenset(FEATS[i] for i in range(6) if (k >> i) & 1)
                 out.append(((aw, dw, g or dw, feats),
                             lambda aw=aw, dw=dw, g=g, feats=feats: wishbone.Signature(
-                                addr_width=aw, data_width=dw, granularity=g,
+                                addr_width=fresh(aw), data_width=dw, granularity=g,
                                 features=[wishbone.Feature(f) for f in sorted(feats)] if k % 2 else feats)))
     elif cls == "event.Source.Signature":
         for t in ("level", "rise", "fall", event.Source.Trigger.RISE, event.Source.Trigger.LEVEL):
